@@ -155,7 +155,12 @@ Definition check_fields (g : graph) (a b : nat) (o : obs) : list bool :=
     term_eqb (o_unf1 o) (unfold depth_D g a);
     o_same_after o;
     beq (o_ground o) (ground_dec g a);
-    list_eqb Nat.eqb (o_tvars o) (vars_dfs g a);
+    (* a finite term: the variables in depth-first left-to-right order of first occurrence; a cyclic term: the infinite tree
+       has no first-occurrence order, so the same variables, each once, in any order *)
+    (if acyclic_dec g a then list_eqb Nat.eqb (o_tvars o) (vars_dfs g a)
+     else Nat.eqb (List.length (o_tvars o)) (List.length (vars_dfs g a))
+          && forallb (fun x => existsb (Nat.eqb x) (vars_dfs g a)) (o_tvars o)
+          && forallb (fun x => existsb (Nat.eqb x) (o_tvars o)) (vars_dfs g a));
     match bisim_dec g a b with
     | Some r => beq (o_eq o) r && beq (N.eqb (o_cmp_ab o) 1) r && beq (N.eqb (o_cmp_ba o) 1) r
     | None => false
